@@ -374,6 +374,14 @@ bool maybe_preempt() {
     return false;
 }
 
+// directed re-runs (trace flavour): give the processor to a particular team member, or to anybody else
+bool yield_to_tid(Team *t, int tid) {
+    if (!g.active) return false;
+    for (size_t i = 0; i < g.fibers.size(); ++i) { Fiber *f = g.fibers[i]; if (f != g.cur && f->team == t && f->tid == tid && f->state == Fiber::RUNNABLE) { ++g.points; switch_to(f); return true; } }
+    for (size_t i = 0; i < g.fibers.size(); ++i) { Fiber *f = g.fibers[i]; if (f != g.cur && f->state == Fiber::RUNNABLE) { ++g.points; switch_to(f); return true; } }
+    return false;
+}
+
 RunStatus run_world(const SchedConfig &cfg, const std::function<void()> &fn) {
     if (g.active) { fprintf(stderr, "amgsim: nested run_world\n"); abort(); }
     RunStatus st;
